@@ -4,7 +4,7 @@ import SwhVerif.Lemmas.MerkleUpdate
 (C10/C14 helper lemmas, part 4)
 -/
 namespace Swh.Merkle
-variable {H : Type} {hashFn : Data → List (Name × H) → H}
+variable {H : Type} {hashFn : Data → List (EntryV H) → H}
 
 /-! ### dict lemmas -/
 
